@@ -272,6 +272,72 @@ void add_s2c(mc::Runner &R, const std::string &name, bool quick, bool thorough) 
   R.add(s);
 }
 
+// ------------------------------------------------------------------ S6: every sub-grid of a quad grid (holes, several split events)
+void add_s6(mc::Runner &R, const std::string &name, int W, int H, bool quick, bool thorough) {
+  const int cells = W * H;
+  // x {eb standard s0, eb valence s0, eb standard s5, eb standard s7 + per-vertex generic attribute, sequential s10} x position {q11, i32}
+  mc::Radix rx{5, 2, 1ull << cells};
+  auto make = [=](uint64_t idx, GeomDef *g, EncCfg *c) {
+    auto d = rx.decode(idx);
+    const uint64_t mask = d[2];
+    g->is_mesh = true;
+    g->num_points = (W + 1) * (H + 1);
+    for (int y = 0; y < H; ++y)
+      for (int x = 0; x < W; ++x) {
+        if (!((mask >> (y * W + x)) & 1)) continue;
+        const int a = y * (W + 1) + x, b = a + 1, c2 = a + W + 1, e = c2 + 1;
+        g->faces.push_back({a, b, c2});
+        g->faces.push_back({b, e, c2});
+      }
+    AttDef pos;
+    pos.type = GeometryAttribute::POSITION;
+    pos.nc = 3;
+    pos.uid = 0;
+    pos.dt = d[1] == 0 ? DT_FLOAT32 : DT_INT32;
+    AttDef gen;
+    gen.type = GeometryAttribute::GENERIC;
+    gen.dt = DT_UINT8;
+    gen.nc = 1;
+    gen.uid = 3;
+    for (int i = 0; i < g->num_points; ++i) {
+      const int x = i % (W + 1), y = i / (W + 1), z = (x * x + 3 * y) % 4;
+      if (d[1] == 0) pos.entries.push_back(bytes_of(std::vector<float>{(float)x, (float)y, z * 0.5f}));
+      else pos.entries.push_back(bytes_of(std::vector<int32_t>{x, y, z}));
+      gen.entries.push_back(bytes_of(std::vector<uint8_t>{(uint8_t)(i * 11)}));
+    }
+    g->atts = {pos};
+    static const int mk[5] = {2, 3, 2, 2, 0}, sp[5] = {0, 0, 5, 7, 10};
+    *c = gs::mesh_cfg(mk[d[0]], sp[d[0]]);
+    c->qbits = {d[1] == 0 ? 11 : 0};
+    if (d[0] == 3) {
+      g->atts.push_back(gen);
+      c->qbits.push_back(0);
+    }
+  };
+  mc::Space s;
+  s.name = name;
+  s.size = rx.size();
+  s.quick = quick;
+  s.thorough = thorough;
+  s.run = [=](uint64_t idx, mc::Ctx &ctx) {
+    GeomDef g;
+    EncCfg c;
+    make(idx, &g, &c);
+    auto r = rt::check_roundtrip(g, c, ctx, "", !g_c09, g_c09);
+    if (r.decoded && g.faces.size() >= 4) {
+      ctx.count("cases_with_holey_grid");
+      ctx.nontrivial_unique();
+    }
+  };
+  s.describe = [=](uint64_t idx) {
+    GeomDef g;
+    EncCfg c;
+    make(idx, &g, &c);
+    return "sub-grid of a " + std::to_string(W) + "x" + std::to_string(H) + " quad grid, cell mask " + std::to_string(rx.decode(idx)[2]) + ": " + text(g) + " " + text(c);
+  };
+  R.add(s);
+}
+
 // ------------------------------------------------------------------ S3
 // Attribute layouts: a second attribute of every type/data type/component
 // count on 4 fixed topologies, per-vertex or per-corner, with forced
@@ -819,6 +885,9 @@ int main(int argc, char **argv) {
     add_s2(R, "S2_F2", &g_s2_small, {1, 2}, {0, 1, 2, 3}, {0, 1, 2, 3, 4}, true, false, true);
     add_s2(R, "S2_named", &g_s2_named, {1, 2}, {0, 1, 2}, {0, 2, 3}, false, false, true);
     add_s2c(R, "S2c_several_components", true, true);
+    add_s6(R, "S6_subgrids_3x3", 3, 3, true, true);
+    add_s6(R, "S6_subgrids_4x4", 4, 4, true, true);
+    add_s6(R, "S6_subgrids_5x4", 5, 4, false, true);
     add_s2b(R, "S2b_F2_two_attributes_reduced", &g_topos_f2_only, false, {0}, true, false, true);
     add_s2b(R, "S2b_closed_second_attribute_per_face_reduced", &g_topos_s2b_perface, true, {0, 5}, true, false, true);
     add_s2b(R, "S2b_F2_two_attributes", &g_topos_f2_only, false, {0, 5}, false, true);
